@@ -231,16 +231,15 @@ def wsvg_coq_term(case):
     if case['write'] != 'ok' or case['attributes'] is None:
         return None
     rd = case['readers']
-    if any('exc' in rd[k] for k in rd):
+    if 'exc' in rd['svg2paths'] or 'exc' in rd['document']:
         return None
-    if case['stream'] == 'style':
-        return None            # the model leaves the style splitting of SaxDocument out
+    sax_ok = 'ok' in rd['sax']
     allstr = list(case['d'])
     for a in case['attributes']:
         allstr += list(a.keys()) + list(a.values())
     s2p_ps, s2p_at, s2p_sa = rd['svg2paths']['ok']
     doc_ps, doc_at, doc_sa = rd['document']['ok']
-    sax_ps, sax_at, sax_sa = rd['sax']['ok']
+    sax_ps, sax_at, sax_sa = rd['sax']['ok'] if sax_ok else ([], [], {})
     for dd in s2p_at + doc_at + sax_at + [s2p_sa]:
         allstr += list(dd.keys()) + list(dd.values())
     if not all(coqable(s) for s in allstr):
@@ -252,7 +251,8 @@ def wsvg_coq_term(case):
         '(Some (%s, %s))' % (clstr([a.get('d', '') for a in s2p_at]), cldict(s2p_at)),
         '(Some %s)' % cdict(s2p_sa),
         '(%s, %s)' % (clstr([a.get('d', '') for a in doc_at]), cldict(doc_at)),
-        '(%s, %s)' % (clstr([a.get('d', '') for a in sax_at]), cldict(sax_at)))
+        '(Some (%s, %s))' % (clstr([a.get('d', '') for a in sax_at]), cldict(sax_at)) if sax_ok
+        else '(@None (list string * list dict))')
 
 
 # ------------------------------------------------------------ history case
@@ -349,7 +349,14 @@ def history_case(rng, scratch, ci):
                 new = doc.add_path(d, at, group=list(names))
                 case['ops'].append(['add_path', d, at, names]); ops_coq.append('(OpAddPathNamed %s %s %s)' % (cs(d), atc, clstr(names)))
             vis = any(p.element is new for p in doc.paths())
-            if not vis:
+            # the property speaks of paths added to the document's groups: the parent must be the root
+            # or a g reached from it through g elements (whatever their namespace)
+            par = {id(c): e for e in doc.tree.getroot().iter() for c in list(e)}
+            anc, reach_ok = par.get(id(new)), True
+            while anc is not None and anc is not doc.tree.getroot():
+                reach_ok = reach_ok and str(anc.tag).split('}')[-1] == 'g'
+                anc = par.get(id(anc))
+            if not vis and reach_ok:
                 case['invisible_after_add'].append(step)
         else:
             at = rng.choice([None, {'id': rng.choice(['A', 'B', 'N'])}, {'id': 'G%d' % step, 'transform': 'translate(1,2)'}])
@@ -375,12 +382,20 @@ def history_case(rng, scratch, ci):
             os.remove(f)
     all_d = [x['attrs'].get('d', '') for _, x in positions(final) if x['local'] == 'path']
     case['all_path_d'] = all_d
+    def reach_d(x):
+        out = [c['attrs'].get('d', '') for c in x['kids'] if c['local'] == 'path']
+        for c in x['kids']:
+            if c['local'] == 'g':
+                out += reach_d(c)
+        return out
+    case['reachable_path_d'] = reach_d(final)
     term = None
     strs = [case['saved_text']]
-    if 'ok' in r1 and 'ok' in r3 and all(coqable(s) for s in strs):
+    if 'ok' in r1 and all(coqable(s) for s in strs):
         term = '(%s, %s, %s, %s, %s, %s, %s)' % (
             xel_coq(root0), coq_list(ops_coq), coq_list([clstr(s) for s in case['steps']]), xel_coq(final),
-            clstr(r1['ok']), '(Some %s)' % clstr(r2['ok']) if 'ok' in r2 else '(@None (list string))', clstr(r3['ok']))
+            clstr(r1['ok']), '(Some %s)' % clstr(r2['ok']) if 'ok' in r2 else '(@None (list string))',
+            '(Some %s)' % clstr(r3['ok']) if 'ok' in r3 else '(@None (list string))')
     return case, term
 
 
@@ -390,8 +405,9 @@ def eval_history(rep, case):
         rep.violation('C18: a path added with Document.add_path is not returned by that Document\'s paths() '
                       '(steps %s)' % case['invisible_after_add'],
                       dict(base, steps_paths=case['steps']), key='doc-add-path-invisible')
-    want = sorted(case['all_path_d'])
     for rd, r in case['reload'].items():
+        # Document flattens the groups below the root; svg2paths and SaxDocument take every path element
+        want = sorted(case['reachable_path_d'] if rd == 'document' else case['all_path_d'])
         if 'exc' in r:
             rep.violation('C18: %s raises %s on a file saved by Document' % (rd, r['exc']),
                           dict(base, reader=rd, error=r), key='doc-save-read-exception-%s-%s' % (rd, r['exc']))
@@ -415,21 +431,55 @@ OKDEF_W = r'''
 From Coq Require Import String.
 From SVP Require Import Model.SvgIO Model.SvgIOCheck.
 Open Scope string_scope.
+(* the variant of the code detected by the probes (false = pinned code) *)
+Definition the_cfg : cfg := %s.
 Definition casety : Type :=
   (list string * list dict * dict * dict * option (list string * list dict) * option dict
-   * (list string * list dict) * (list string * list dict))%type.
+   * (list string * list dict) * option (list string * list dict))%%type.
 Definition ok (c : casety) : nat :=
-  let '(ds, attrs, sa, size, o1, o2, o3, o4) := c in check_wsvg ds attrs sa size o1 o2 o3 o4.
+  let '(ds, attrs, sa, size, o1, o2, o3, o4) := c in check_wsvg the_cfg ds attrs sa size o1 o2 o3 o4.
 '''
 OKDEF_H = r'''
 From Coq Require Import String.
 From SVP Require Import Model.SvgIO Model.SvgIOCheck.
 Open Scope string_scope.
+Definition the_cfg : cfg := %s.
 Definition casety : Type :=
-  (xel * list op * list (list string) * xel * list string * option (list string) * list string)%type.
+  (xel * list op * list (list string) * xel * list string * option (list string) * option (list string))%%type.
 Definition ok (c : casety) : nat :=
-  let '(root, ops, steps, final, r1, r2, r3) := c in check_history root ops steps final r1 r2 r3.
+  let '(root, ops, steps, final, r1, r2, r3) := c in check_history the_cfg root ops steps final r1 r2 r3.
 '''
+
+FLAGS = ['style_skip', 'add_ns', 'default_ns']
+
+
+def probe_flags(scratch):
+    """which variant of each repaired behaviour does the implementation run?  The probes are the
+    witnesses of the `_refuted` Examples of Props/C18.v"""
+    from svgpathtools import Document, SaxDocument
+    fl = {}
+    p = os.path.join(scratch, 'p_style.svg')
+    with open(p, 'w') as f:
+        f.write('<svg xmlns="%s"><path d="M0,0 L1,1" style="fill:none;"/></svg>' % SVGNS)
+    r = guarded(lambda: len(SaxDocument(p).tree))
+    fl['style_skip'] = r.get('ok') == 1
+    os.remove(p)
+    def f():
+        d = Document(None)
+        e = d.add_path('M0,0 L1,1')
+        return e.tag.startswith('{') and len(d.paths()) == 1
+    fl['add_ns'] = guarded(f).get('ok') is True
+    def g():
+        d = Document(None)
+        d.add_group({'id': 'A'})
+        return 'svg:g' not in repr(d)
+    fl['default_ns'] = guarded(g).get('ok') is True
+    return fl
+
+
+def cfg_coq(fl):
+    return '(mkCfg %s)' % ' '.join(common.coq_bool(fl[k]) for k in FLAGS)
+
 
 
 def run(rep, tier, seed, replay=None):
@@ -443,6 +493,10 @@ def run(rep, tier, seed, replay=None):
     try:
         with common.Scratch() as tmp:
             common.std_static(rep, 'C18', (), (), tmp)
+            flags = probe_flags(scratch)
+            rep.cov['variant'] = flags
+            rep.notes.append('code variant detected by the probes (false = pinned 12ec128 behaviour): %s' % flags)
+            okdef_w, okdef_h = OKDEF_W % cfg_coq(flags), OKDEF_H % cfg_coq(flags)
             nw, ns_, nh = (150, 30, 150) if tier == 'quick' else (1500, 200, 1500)
             keycount = {}
             _viol = rep.violation
@@ -506,7 +560,7 @@ def run(rep, tier, seed, replay=None):
                         samples.append({'stream': 'history', 'initial': case['initial'], 'ops': case['ops'],
                                         'paths_after_each_step': case['steps']})
             stats['wsvg_in_coq'], stats['history_in_coq'] = len(wterms), len(hterms)
-            fails, errors = common.run_cases(tmp, '', 'casety', OKDEF_W, wterms, shard=40, prefix='cases_c18w')
+            fails, errors = common.run_cases(tmp, '', 'casety', okdef_w, wterms, shard=40, prefix='cases_c18w')
             for e in errors:
                 rep.violation('correspondence case file failed to evaluate', {'kind': 'cases', 'error': e},
                               found_input=False, key='cases-error')
@@ -518,7 +572,7 @@ def run(rep, tier, seed, replay=None):
                                'd': c['d'], 'attributes': c['attributes'], 'svg_attributes': c['svg_attributes'],
                                'readers': str(c['readers'])[:2000]},
                               found_input=(c['stream_name'], c['case_index']) in prop_failed, key='tie-wsvg')
-            fails, errors = common.run_cases(tmp, '', 'casety', OKDEF_H, hterms, shard=25, prefix='cases_c18h')
+            fails, errors = common.run_cases(tmp, '', 'casety', okdef_h, hterms, shard=25, prefix='cases_c18h')
             for e in errors:
                 rep.violation('correspondence case file failed to evaluate', {'kind': 'cases', 'error': e},
                               found_input=False, key='cases-error')
